@@ -102,7 +102,7 @@ JOBSETS['legacy'] = {
 }
 
 PROPS = {
-    'C17': {'jobsets': ['legacy'], 'phases': [''], 'translator_validation': 2},
+    'C17': {'jobsets': ['legacy'], 'phases': [''], 'translator_validation': 2, 'also_labels': r'^(C13 |M-frozen)'},
     'C15': {'jobsets': ['depth'], 'phases': ['decode'], 'translator_validation': 4},
     'C12': {'jobsets': ['codec'], 'phases': ['encode', 'decode'], 'job_filter': r'codec/(Sp|Sc|Tw|Id|Li_|Se_)', 'also_labels': r'^(C01|C02|C04)'},
     'C13': {'jobsets': ['invalid'], 'phases': [''], 'translator_validation': 4},
